@@ -166,7 +166,7 @@ def _items_gen(pat: Term, it: Term):
                 return all(bind(q_, ("index", val, ("const", j))) for j, q_ in enumerate(p_[1]))
             return False
 
-        if S[0] in ("var", "attr", "index") and bind(x, ("index", S, i)):
+        if S[0] in ("var", "attr", "index", "comp", "call", "meth", "listlit", "tuplelit") and bind(x, ("index", S, i)):
             return i, ("call", "range", (("len", S),), ()), m
     if it[0] == "meth" and it[2] == "items" and not it[3] and not it[4] and pat[0] == "tuplelit" and len(pat[1]) == 2 \
             and pat[1][0][0] == "var" and pat[1][1][0] == "var":
